@@ -279,3 +279,179 @@ def p3_delete_frees(prog):
             for b, t in body.calls(lambda c: c['name'] in ('free_unchecked', 'deactivate')):
                 r.viol('P3', f.path + '/frees', f.loc(t['ln']), 'a move/detached clear must not free identifiers')
     return r
+
+
+def _length_versioned_atomizer(prog, body, lwrites):
+    def atomizer(kind, payload, pos):
+        if kind == 'place':
+            name = access_field_names(prog, body, normalize_access(access_of_place(body, payload)))
+            if name == 'self.length':
+                after = any(pos_after(body, pos, w) for w in lwrites)
+                return Lin({'oldlen': 1, 'delta': 1 if after else 0})
+            return name
+        if kind == 'call' and payload['f'].get('name') in ('component_len',):
+            return 'component_len'
+        return None
+    return atomizer
+
+
+@rule('P10', props=['C01', 'C02', 'C13'], floor=4, configs=('all', 'default'))
+def p10_row_identifier_correspondence(prog):
+    """New rows and their identifiers correspond one to one and in order: Archetype::push allocates the
+    identifier for location (this archetype, old length), appends exactly that identifier to the
+    identifier column and returns it; Archetype::extend allocates identifiers for locations
+    old_length .. old_length + batch_len of this archetype, appends exactly the returned identifiers (in
+    that order) and returns that same Vec; allocate_batch pairs the k-th location with the k-th identifier
+    (one `next()` and one push per reused slot; fresh slots numbered slots_len + i in iteration order);
+    Locations yields increasing indices with its own archetype identifier."""
+    r = Result()
+    def meth(name):
+        c = [f for f in prog.fns.values() if f.path == 'archetype::Archetype::<R>::' + name]
+        return c[0] if len(c) == 1 else None
+    # ---- push
+    f = meth('push')
+    if f is None:
+        r.viol('P10', 'push/missing', '-', 'Archetype::push not found')
+    else:
+        body = f.body
+        r.inst('Archetype::push')
+        lwrites = [(b, i) for b, i, s in body.stmts() if s['k'] == 'assign' and s['place']['p'] and receiver_name(prog, body, {'copy': s['place']}) == 'self.length']
+        se = SymEval(prog, body, _length_versioned_atomizer(prog, body, lwrites))
+        al = [(b, t) for b, t in body.calls(lambda c: c['name'] == 'allocate' and 'Allocator' in c['path'])]
+        if len(al) != 1:
+            r.viol('P10', 'push/allocate-count', f.loc(), 'push must allocate exactly one identifier')
+        else:
+            ab, at = al[0]
+            ll = op_local(at['args'][1])
+            d = resolve_def(body, ll) if ll is not None else None
+            ok = False
+            if d and d[0] == 'assign' and d[3]['rv']['k'] == 'agg' and d[3]['rv'].get('path', '').endswith('Location'):
+                idx = se.operand(d[3]['rv']['ops'][1], (d[1], d[2]))
+                idl = op_local(d[3]['rv']['ops'][0])
+                dd = resolve_def(body, idl) if idl is not None else None
+                ok_idx = idx == Lin({'oldlen': 1})
+                ok_id = bool(dd and dd[0] == 'call' and dd[2]['f']['name'] in ('as_ref', 'identifier') and (receiver_name(prog, body, dd[2]['args'][0]) or '').startswith('self'))
+                if not ok_idx:
+                    r.viol('P10', 'push/location-index', f.loc(d[3]['ln']), 'the new entity\'s location index is %s, expected the row it is pushed to (the length before the push)' % idx)
+                if not ok_id:
+                    r.viol('P10', 'push/location-identifier', f.loc(d[3]['ln']), 'the new entity\'s location does not name this archetype')
+                ok = True
+            elif d and d[0] == 'call' and d[2]['f']['name'] == 'new' and 'Location' in d[2]['f']['path']:
+                idx = se.operand(d[2]['args'][1], (d[1], None))
+                if idx != Lin({'oldlen': 1}):
+                    r.viol('P10', 'push/location-index', f.loc(d[2]['ln']), 'the new entity\'s location index is %s, expected the length before the push' % idx)
+                ok = True
+            if not ok:
+                r.viol('P10', 'push/location-shape', f.loc(at['ln']), 'cannot see the location handed to the allocator')
+            pushes = [(b, t) for b, t in body.calls() if is_ident_vec_call(body, t, ('push',))]
+            if len(pushes) != 1 or access_of_local(body, op_local(pushes[0][1]['args'][1])).root != at['dest']['l']:
+                r.viol('P10', 'push/identifier-column', f.loc(), 'the identifier appended to the identifier column is not the one just allocated for this row')
+            ret_ok = any(s['k'] == 'assign' and s['place']['l'] == 0 and s['rv']['k'] == 'use' and op_local(s['rv']['op']) is not None and access_of_local(body, op_local(s['rv']['op'])).root == at['dest']['l'] for b, i, s in body.stmts())
+            if not ret_ok:
+                r.viol('P10', 'push/returned-identifier', f.loc(), 'push does not return the identifier it stored')
+    # ---- extend
+    f = meth('extend')
+    if f is None:
+        r.viol('P10', 'extend/missing', '-', 'Archetype::extend not found')
+    else:
+        body = f.body
+        r.inst('Archetype::extend')
+        lwrites = [(b, i) for b, i, s in body.stmts() if s['k'] == 'assign' and s['place']['p'] and receiver_name(prog, body, {'copy': s['place']}) == 'self.length']
+        se = SymEval(prog, body, _length_versioned_atomizer(prog, body, lwrites))
+        ab_ = [(b, t) for b, t in body.calls(lambda c: c['name'] == 'allocate_batch')]
+        ln_ = [(b, t) for b, t in body.calls(lambda c: c['name'] == 'new' and 'Locations' in c['path'])]
+        if len(ab_) != 1 or len(ln_) != 1:
+            r.viol('P10', 'extend/shape', f.loc(), 'extend must build one Locations range and allocate one batch of identifiers')
+        else:
+            (bb, bt), (lb, lt) = ab_[0], ln_[0]
+            rl = op_local(lt['args'][0])
+            d = resolve_def(body, rl) if rl is not None else None
+            if d and d[0] == 'assign' and d[3]['rv']['k'] == 'agg' and d[3]['rv'].get('path', '').endswith('Range'):
+                lo = se.operand(d[3]['rv']['ops'][0], (d[1], d[2]))
+                hi = se.operand(d[3]['rv']['ops'][1], (d[1], d[2]))
+                if lo != Lin({'oldlen': 1}) or hi != Lin({'oldlen': 1, 'component_len': 1}):
+                    r.viol('P10', 'extend/location-range', f.loc(d[3]['ln']), 'new rows are given locations %s..%s, expected old_length..old_length + batch length' % (lo, hi))
+            else:
+                r.viol('P10', 'extend/location-range-shape', f.loc(lt['ln']), 'cannot see the range of row indices handed to Locations::new')
+            idl = op_local(lt['args'][1])
+            dd = resolve_def(body, idl) if idl is not None else None
+            if not (dd and dd[0] == 'call' and dd[2]['f']['name'] in ('as_ref', 'identifier') and (receiver_name(prog, body, dd[2]['args'][0]) or '').startswith('self')):
+                r.viol('P10', 'extend/location-identifier', f.loc(lt['ln']), 'new rows\' locations do not name this archetype')
+            if access_of_local(body, op_local(bt['args'][1])).root != lt['dest']['l']:
+                r.viol('P10', 'extend/locations-not-used', f.loc(bt['ln']), 'allocate_batch is not given the locations built for the new rows')
+            exts = [(b, t) for b, t in body.calls(lambda c: c['name'] in ('extend', 'extend_from_slice', 'append') and t_is_ident_vec(c))]
+            src_ok = False
+            ORDER_PRESERVING = ('deref', 'iter', 'into_iter', 'copied', 'cloned', 'as_slice', 'as_ref', 'borrow', 'by_ref')
+            for b, t in exts:
+                l = op_local(t['args'][1])
+                # walk back through order-preserving adaptors only
+                hops = 0
+                while l is not None and hops < 12:
+                    hops += 1
+                    a = access_of_local(body, l)
+                    if a.root == bt['dest']['l']:
+                        src_ok = True
+                        break
+                    d0 = single_def(body, a.root)
+                    if d0 and d0[0] == 'call' and d0[2]['f'].get('name') in ORDER_PRESERVING and d0[2]['args']:
+                        l = op_local(d0[2]['args'][0])
+                        continue
+                    break
+            if not src_ok:
+                r.viol('P10', 'extend/identifier-column', f.loc(), 'the identifier column is not extended with the identifiers allocated for this batch (in their order)')
+            ret_ok = any(s['k'] == 'assign' and s['place']['l'] == 0 and s['rv']['k'] == 'use' and op_local(s['rv']['op']) is not None and access_of_local(body, op_local(s['rv']['op'])).root == bt['dest']['l'] for b, i, s in body.stmts())
+            if not ret_ok:
+                r.viol('P10', 'extend/returned-identifiers', f.loc(), 'extend does not return the identifiers it stored')
+    # ---- allocate_batch pairing
+    fs = [g for g in prog.fns.values() if g.path == 'entity::allocator::Allocator::<R>::allocate_batch']
+    if len(fs) != 1:
+        r.viol('P10', 'allocate_batch/missing', '-', 'allocate_batch not found')
+    else:
+        f = fs[0]
+        body = f.body
+        r.inst('Allocator::allocate_batch')
+        nx = [(b, t) for b, t in body.calls(lambda c: c['path'] == 'core::iter::Iterator::next' and 'Locations' in json_s(c['args']))]
+        ps = [(b, t) for b, t in body.calls() if is_ident_vec_call(body, t, ('push',))]
+        if len(nx) != 1 or len(ps) != 1:
+            r.viol('P10', 'allocate_batch/loop-shape', f.loc(), 'the reuse loop must take exactly one location and push exactly one identifier per reused slot (next=%d push=%d)' % (len(nx), len(ps)))
+        else:
+            if not (body.dominates(nx[0][0], ps[0][0]) and nx[0][0] in body.reachable_after(ps[0][0])):
+                r.viol('P10', 'allocate_batch/pairing', f.loc(), 'location and identifier of a reused slot are not produced in the same loop iteration')
+        # fresh part: closure building Identifier::new(slots_len + index, 0)
+        okc = False
+        for g in f.closures():
+            for b, t in g.body.calls(lambda c: c['name'] == 'new' and 'entity::identifier::Identifier' in c['path']):
+                se = SymEval(prog, g.body)
+                idx = se.operand(t['args'][0], (b, None))
+                gen = op_const(t['args'][1])
+                if idx is not None and len(idx.terms) == 2 and all(v == 1 for v in idx.terms.values()) and idx.const == 0 and gen is not None and gen.get('val') == 0:
+                    okc = True
+        if not okc:
+            r.viol('P10', 'allocate_batch/fresh-numbering', f.loc(), 'identifiers of fresh slots must be (slots_len + i, generation 0) in iteration order')
+    # ---- Locations::next
+    fs = [g for g in prog.fns.values() if g.name == 'next' and g.impl and is_adt(g.impl['self'], 'entity::allocator::locations::Locations')]
+    if len(fs) != 1:
+        r.viol('P10', 'Locations::next/missing', '-', 'Locations::next not found')
+    else:
+        f = fs[0]
+        r.inst('Locations::next')
+        ok = False
+        for g in [f] + f.closures():
+            for b, i, s in g.body.stmts():
+                if s['k'] == 'assign' and s['rv']['k'] == 'agg' and s['rv'].get('path', '').endswith('Location'):
+                    n1 = g.body.local_name(op_local(s['rv']['ops'][1])) if op_local(s['rv']['ops'][1]) is not None else None
+                    l0 = op_local(s['rv']['ops'][0])
+                    ok = (n1 == 'index' or l0 is not None)
+        rng = any(t['f']['path'] == 'core::iter::Iterator::next' for b, t in f.body.calls()) or any('Range' in json_s(t['f']['args']) for b, t in f.body.calls())
+        if not ok or not rng:
+            r.viol('P10', 'Locations::next/shape', f.loc(), 'Locations::next must yield Location{identifier: self.identifier, index: next index of the range}')
+    return r
+
+
+def t_is_ident_vec(c):
+    return any(is_adt(a, ID_T) or (a.get('k') == 'ref' and is_adt(a.get('t'), ID_T)) or ty_mentions(a, lambda n: is_adt(n, ID_T)) for a in c.get('args', []))
+
+
+def json_s(x):
+    import json
+    return json.dumps(x)
